@@ -125,6 +125,10 @@ theorem go_inv (cfg : Cfg) : ∀ (fuel : Nat) (l : Lbl) (st : St), Pre l st → 
         · exact ih _ _ h.1
       · split
         · exact ih _ _ h
+        · exact post_of_mid h.1 (by simp) (by simp) (fun _ => h.2)
+        · exact ih _ _ h.1
+      · split
+        · exact ih _ _ h
         · split
           · split
             · exact ih _ _ h
@@ -185,6 +189,7 @@ theorem resumeRead_inv (cfg : Cfg) (st : St) (m : Nat) (h : Post st) : Post (res
   · rename_i hpc
     have hn : st.needClose = true := h.2.2.2 (Or.inr (Or.inl hpc))
     split
+    · exact go_inv cfg _ _ _ ⟨h.1, hn⟩
     · exact go_inv cfg _ _ _ ⟨h.1, hn⟩
     · simp only
       split
